@@ -263,6 +263,7 @@ def backend_child(ex, env, cls=RW):
     self_v = ex.alloc(HObj(ci, attrs))
     cur_pid = ex.ext_models['os.getpid'](ex, [], {})
     ex.assume(cur_pid.t != attrs['_pid'].t)
+    env['comms_child'] = cends['child']
     env.update(self=self_v, out=sock, target=target, args0=VSeq(ex.heap[args.addr].seq),
                kw0=VSym(ex.abs_classes['ODict'].get(ex, kwargs, 'content')), target_host=th)
     ex.ghost['calls'] = z3.Empty(SeqVal)
